@@ -614,9 +614,15 @@ class Ctx:
         vs = self.input_vars(extra_terms)
         small = [z3.And(v >= -bound, v <= bound) for v in vs.values()]
         small += [z3.And(e >= rv(Fraction(1, 10**4)), e <= 10**4) for (_, e) in self.exp_atoms.values()]
-        res, model = self.check(list(extra) + small)
-        if res != "sat":
-            res, model = self.check(list(extra))
+        # a witness must satisfy the WHOLE path condition (no slicing)
+        old = self.notes.get("no_slicing")
+        self.notes["no_slicing"] = True
+        try:
+            res, model = self.check(list(extra) + small)
+            if res != "sat":
+                res, model = self.check(list(extra))
+        finally:
+            self.notes["no_slicing"] = old
         if res != "sat":
             return None
         return model_env(model, self)
